@@ -204,8 +204,13 @@ def check(ctx):
                    "str() of list elements other than numbers, booleans, strings and NodeIds (bytes, datetimes, nested tuples) is outside the model (Unsupported, skipped)",
                    "extraction + driver.ml, cross-checked against vm_compute on a sample"]
     reqs = []; meta = []
-    for _ in range(350 if ctx.quick() else 8000):
-        v = gen(rng)
+    from opcua_tools import ua_data_types as T
+    # a fixed corpus that runs first: values that compare equal but must be written differently (anything keyed by == would confuse them)
+    corpus = [T.UADouble(-0.0), T.UADouble(0.0), T.UAFloat(0.0), T.UAFloat(-0.0), T.UADouble(1), T.UADouble(1.0), T.UAEURange(low=-0.0, high=0.0), T.UAEURange(low=0.0, high=-0.0),
+              T.UAVariant(T.UADouble(0.0)), T.UAVariant(T.UADouble(-0.0))]
+    n_rand = 350 if ctx.quick() else 8000
+    for i in range(len(corpus) + n_rand):
+        v = corpus[i] if i < len(corpus) else gen(rng)
         if v is None: continue
         out, fails = judge(v)
         sx = to_jsx(v)
